@@ -83,4 +83,349 @@ theorem b64uDecGo_enc (x : Bytes) : ∀ out : Bytes, b64uDecGo (b64uEnc x) 0 0 o
     rw [ih]
     simp [e1, e2, e3]
 
+/-! ### percent-encoding -/
+
+def isUCHex (b : UInt8) : Bool := isDigit b || ((65 : UInt8) ≤ b && b ≤ (70 : UInt8))
+
+/-- a string made of unreserved characters and %HH triplets (upper-case hex) only -/
+inductive PctSafe : Bytes → Prop
+  | nil : PctSafe []
+  | unres {b : UInt8} {rest : Bytes} : isUnreserved b = true → PctSafe rest → PctSafe (b :: rest)
+  | enc {h l : UInt8} {rest : Bytes} :
+      isUCHex h = true → isUCHex l = true → PctSafe rest → PctSafe (pct :: h :: l :: rest)
+
+theorem hexDigitUC_isUCHex :
+    ∀ b : UInt8, isUCHex (hexDigitUC (b >>> 4)) = true ∧ isUCHex (hexDigitUC (b &&& 0xf)) = true := by
+  apply forall_uint8; set_option maxRecDepth 100000 in decide
+
+theorem encAll_cons (b : UInt8) (s : Bytes) :
+    encAll (b :: s) = (if isUnreserved b then [b] else pctEnc b) ++ encAll s := by
+  simp [encAll]
+
+theorem encAll_safe (s : Bytes) : PctSafe (encAll s) := by
+  induction s with
+  | nil => exact .nil
+  | cons b s ih =>
+    rw [encAll_cons]
+    by_cases hb : isUnreserved b = true
+    · simp only [hb, if_true, List.singleton_append]; exact .unres hb ih
+    · simp only [hb, pctEnc]
+      exact .enc (hexDigitUC_isUCHex b).1 (hexDigitUC_isUCHex b).2 ih
+
+/-! ### case mapping -/
+
+/-- no upper-case ASCII letter outside %XX triplets -/
+inductive NoUpperOutsidePct : Bytes → Prop
+  | nil : NoUpperOutsidePct []
+  | byte {b : UInt8} {rest : Bytes} : isUpper b = false → NoUpperOutsidePct rest → NoUpperOutsidePct (b :: rest)
+  | triplet {h l : UInt8} {rest : Bytes} :
+      isXDigit h = true → isXDigit l = true → NoUpperOutsidePct rest → NoUpperOutsidePct (pct :: h :: l :: rest)
+
+/-- no lower-case ASCII letter outside %XX triplets -/
+inductive NoLowerOutsidePct : Bytes → Prop
+  | nil : NoLowerOutsidePct []
+  | byte {b : UInt8} {rest : Bytes} : isLower b = false → NoLowerOutsidePct rest → NoLowerOutsidePct (b :: rest)
+  | triplet {h l : UInt8} {rest : Bytes} :
+      isXDigit h = true → isXDigit l = true → NoLowerOutsidePct rest → NoLowerOutsidePct (pct :: h :: l :: rest)
+
+theorem lower_facts : ∀ b : UInt8,
+    (isUpper b = true → isUpper (b ||| 0x20) = false ∧ toLower (b ||| 0x20) = toLower b) ∧
+    (isLower b = true → isLower (b &&& 0xdf) = false ∧ toLower (b &&& 0xdf) = toLower b) ∧
+    (b = pct → isUpper b = false ∧ isLower b = false) := by
+  apply forall_uint8; set_option maxRecDepth 100000 in decide
+
+theorem xdigit2_true {rest : Bytes} (h : xdigit2 rest = true) :
+    ∃ x y rest', rest = x :: y :: rest' ∧ isXDigit x = true ∧ isXDigit y = true := by
+  match rest, h with
+  | x :: y :: rest', h =>
+    simp only [xdigit2, Bool.and_eq_true] at h
+    exact ⟨x, y, rest', rfl, h.1, h.2⟩
+
+theorem lowerSkipPct_noUpper : ∀ s : Bytes, (0 : UInt8) ∉ s → NoUpperOutsidePct (lowerSkipPct s 0)
+  | [], _ => by simp [lowerSkipPct]; exact .nil
+  | b :: rest, h => by
+    have hb : b ≠ 0 := fun e => h (by simp [e])
+    have hrest : (0 : UInt8) ∉ rest := fun e => h (by simp [e])
+    rw [lowerSkipPct]
+    simp only [hb, if_false]
+    by_cases hu : isUpper b = true
+    · simp only [hu, if_true]
+      exact .byte ((lower_facts b).1 hu).1 (lowerSkipPct_noUpper rest hrest)
+    · have hu' : isUpper b = false := by simpa using hu
+      simp only [hu', Bool.false_eq_true, if_false]
+      by_cases hp : (b = pct && xdigit2 rest) = true
+      · simp only [hp, if_true]
+        simp only [Bool.and_eq_true, decide_eq_true_eq] at hp
+        obtain ⟨x, y, rest', hr, hx, hy⟩ := xdigit2_true hp.2
+        subst hr
+        have hr' : (0 : UInt8) ∉ rest' := fun e => hrest (by simp [e])
+        simp only [lowerSkipPct, hp.1]
+        exact .triplet hx hy (lowerSkipPct_noUpper rest' hr')
+      · simp only [hp, Bool.false_eq_true, if_false]
+        exact .byte hu' (lowerSkipPct_noUpper rest hrest)
+termination_by s => s.length
+
+theorem upperSkipPct_noLower : ∀ s : Bytes, (0 : UInt8) ∉ s → NoLowerOutsidePct (upperSkipPct s 0)
+  | [], _ => by simp [upperSkipPct]; exact .nil
+  | b :: rest, h => by
+    have hb : b ≠ 0 := fun e => h (by simp [e])
+    have hrest : (0 : UInt8) ∉ rest := fun e => h (by simp [e])
+    rw [upperSkipPct]
+    simp only [hb, if_false]
+    by_cases hu : isLower b = true
+    · simp only [hu, if_true]
+      exact .byte ((lower_facts b).2.1 hu).1 (upperSkipPct_noLower rest hrest)
+    · have hu' : isLower b = false := by simpa using hu
+      simp only [hu', Bool.false_eq_true, if_false]
+      by_cases hp : (b = pct && xdigit2 rest) = true
+      · simp only [hp, if_true]
+        simp only [Bool.and_eq_true, decide_eq_true_eq] at hp
+        obtain ⟨x, y, rest', hr, hx, hy⟩ := xdigit2_true hp.2
+        subst hr
+        have hr' : (0 : UInt8) ∉ rest' := fun e => hrest (by simp [e])
+        simp only [upperSkipPct, hp.1]
+        exact .triplet hx hy (upperSkipPct_noLower rest' hr')
+      · simp only [hp, Bool.false_eq_true, if_false]
+        exact .byte hu' (upperSkipPct_noLower rest hrest)
+termination_by s => s.length
+
+/-- case mapping changes nothing but the case of ASCII letters -/
+theorem lowerSkipPct_caseOnly (s : Bytes) : ∀ skip, (lowerSkipPct s skip).map toLower = s.map toLower := by
+  induction s with
+  | nil => intro skip; simp [lowerSkipPct]
+  | cons b rest ih =>
+    intro skip
+    cases skip with
+    | succ k => simp [lowerSkipPct, ih]
+    | zero =>
+      rw [lowerSkipPct]
+      by_cases hb : b = 0
+      · simp [hb]
+      · simp only [hb, if_false]
+        by_cases hu : isUpper b = true
+        · simp only [hu, if_true, List.map_cons, ih, ((lower_facts b).1 hu).2]
+        · simp [hu, ih]
+
+theorem upperSkipPct_caseOnly (s : Bytes) : ∀ skip, (upperSkipPct s skip).map toLower = s.map toLower := by
+  induction s with
+  | nil => intro skip; simp [upperSkipPct]
+  | cons b rest ih =>
+    intro skip
+    cases skip with
+    | succ k => simp [upperSkipPct, ih]
+    | zero =>
+      rw [upperSkipPct]
+      by_cases hb : b = 0
+      · simp [hb]
+      · simp only [hb, if_false]
+        by_cases hu : isLower b = true
+        · simp only [hu, if_true, List.map_cons, ih, ((lower_facts b).2.1 hu).2]
+        · simp [hu, ih]
+
+/-! ### burl_append -/
+
+theorem burlAppend_zero (s look : Bytes) : burlAppend 0 s look = s := by
+  unfold burlAppend
+  by_cases h : s = [] <;> simp [h]
+
+theorem burlAppend_nil (flags : Nat) (look : Bytes) : burlAppend flags [] look = [] := by
+  simp [burlAppend]
+
+theorem cstr_eq_self : ∀ (b : Bytes), (0 : UInt8) ∉ b → cstr b = b
+  | [], _ => rfl
+  | x :: rest, h => by
+    have hx : x ≠ 0 := fun e => h (by simp [e])
+    have hr : (0 : UInt8) ∉ rest := fun e => h (by simp [e])
+    simp [cstr, hx, cstr_eq_self rest hr]
+
+/-! ### template substitution -/
+
+def isSigil (c : UInt8) : Bool := c = dollar || c = pct
+
+theorem substGo_skip (env : Env) : ∀ (l : Bytes) (k : Nat) (out : Bytes),
+    substGo env l k out = substGo env (l.drop k) 0 out := by
+  intro l
+  induction l with
+  | nil => intro k out; simp [substGo]
+  | cons c rest ih =>
+    intro k out
+    cases k with
+    | zero => simp
+    | succ k => simp [substGo, ih]
+
+theorem substGo_plain (env : Env) (c : UInt8) (t out : Bytes) (hc : isSigil c = false) :
+    substGo env (c :: t) 0 out = substGo env t 0 (out ++ [c]) := by
+  conv => lhs; unfold substGo
+  simp only [isSigil, Bool.or_eq_false_iff, decide_eq_false_iff_not] at hc
+  simp [hc]
+
+theorem substGo_literal (env : Env) (lit : Bytes) : ∀ (t out : Bytes), (∀ c ∈ lit, isSigil c = false) →
+    substGo env (lit ++ t) 0 out = substGo env t 0 (out ++ lit) := by
+  induction lit with
+  | nil => intro t out _; simp
+  | cons c rest ih =>
+    intro t out h
+    rw [List.cons_append, substGo_plain env c _ _ (h c (by simp)), ih t _ (fun x hx => h x (by simp [hx]))]
+    simp
+
+theorem substGo_brace (env : Env) (c : UInt8) (hc : isSigil c = true) (p out : Bytes) :
+    substGo env (c :: lbrace :: p) 0 out =
+      match substExt env c out p with
+      | none => out
+      | some (out', k) => substGo env (p.drop k) 0 out' := by
+  conv => lhs; unfold substGo
+  simp only [isSigil] at hc
+  simp only [hc, if_true, List.drop_one, List.tail_cons]
+  cases substExt env c out p with
+  | none => rfl
+  | some r => obtain ⟨out', k⟩ := r; simp [substGo_skip env (lbrace :: p) (k + 1)]
+
+/-! ### first match -/
+
+theorem processFrom_skip (cond : Option Caps) (url : UrlParts) (subject : Bytes) :
+    ∀ (pre rest : List (Bytes × MatchRes)) (base : Nat), (∀ r ∈ pre, r.2 = .nomatch) →
+    processFrom cond url subject (pre ++ rest) base = processFrom cond url subject rest (base + pre.length) := by
+  intro pre
+  induction pre with
+  | nil => intro rest base _; simp
+  | cons r pre ih =>
+    intro rest base h
+    obtain ⟨t, m⟩ := r
+    have hm : m = .nomatch := h (t, m) (by simp)
+    subst hm
+    rw [List.cons_append, processFrom, ih rest (base + 1) (fun r hr => h r (by simp [hr]))]
+    simp only [List.length_cons]
+    congr 1
+    omega
+
+/-! ### rewrite loop -/
+
+/-- calls of process_rewrite_rules that can still happen from a state -/
+def rwBudget : Option RwState → Nat
+  | none => 102
+  | some st => 101 - st.count
+
+/-- rewrites that can still happen from a state -/
+def rwRewritesLeft : Option RwState → Nat
+  | none => 101
+  | some st => 100 - st.count
+
+theorem rwCall_body_comeback {ridx : Nat} {cond : Option Caps} {url : UrlParts}
+    {rules : List (Bytes × MatchRes)} {h1 h' : Option RwState} {t' : Bytes}
+    (h : rwCall.body ridx cond url rules h1 = (.comeback t', h')) :
+    t'.head? = some slash ∧
+    ∃ m f, process cond url url.path rules = .finished m t' ∧
+      h' = some { count := (h1.getD { count := 0, finished := false }).count, finished := f } ∧
+      (m < ridx → f = true) := by
+  unfold rwCall.body at h
+  split at h
+  · rename_i m res hp
+    split at h
+    · rename_i hs
+      simp only [Prod.mk.injEq, RwRes.comeback.injEq] at h
+      obtain ⟨h1e, h2e⟩ := h
+      subst h1e
+      refine ⟨hs, m, _, hp, h2e.symm, ?_⟩
+      intro hm; simp [hm]
+    · simp at h
+  · simp at h
+  · simp at h
+
+theorem rwCall_comeback {ridx : Nat} {cond : Option Caps} {url : UrlParts}
+    {rules : List (Bytes × MatchRes)} {h h' : Option RwState} {t' : Bytes}
+    (hc : rwCall ridx cond url rules h = (.comeback t', h')) :
+    (h = none ∧ ∃ f, h' = some { count := 0, finished := f }) ∨
+    (∃ st f, h = some st ∧ st.count + 1 ≤ rwLoopLimit ∧ st.finished = false ∧
+        h' = some { count := st.count + 1, finished := f }) := by
+  unfold rwCall at hc
+  cases h with
+  | none =>
+    left
+    simp only [Option.map_none] at hc
+    obtain ⟨_, m, f, _, hh, _⟩ := rwCall_body_comeback hc
+    exact ⟨rfl, f, by simpa using hh⟩
+  | some st =>
+    right
+    simp only [Option.map_some] at hc
+    split at hc
+    · simp at hc
+    · rename_i hlim
+      split at hc
+      · simp at hc
+      · rename_i hfin
+        obtain ⟨_, m, f, _, hh, _⟩ := rwCall_body_comeback hc
+        refine ⟨st, f, rfl, by omega, by simpa using hfin, ?_⟩
+        simpa using hh
+
+theorem rwBudget_pos (h : Option RwState) (hc : ∀ st, h = some st → st.count ≤ 100) : 1 ≤ rwBudget h := by
+  cases h with
+  | none => simp [rwBudget]
+  | some st => have := hc st rfl; simp only [rwBudget]; omega
+
+def RwFinal.rewrites : RwFinal → Nat
+  | .served _ n => n
+  | .status _ n => n
+  | .failed _ n => n
+  | .outOfFuel => 0
+
+/-- with enough fuel for the remaining budget the loop terminates, more fuel changes nothing,
+    and the number of rewrites stays within what is left -/
+theorem rwRun_bounded (matcher : Bytes → List MatchRes) (templates : List Bytes) (ridx : Nat)
+    (cond : Option Caps) (opts : Opts) (scheme authority : Option Bytes) (port : Nat) :
+    ∀ (fuel : Nat) (target : Bytes) (h : Option RwState) (n k : Nat),
+      (∀ st, h = some st → st.count ≤ 100) → rwBudget h ≤ fuel →
+      rwRun matcher templates ridx cond opts scheme authority port (fuel + k) target h n =
+        rwRun matcher templates ridx cond opts scheme authority port fuel target h n ∧
+      rwRun matcher templates ridx cond opts scheme authority port fuel target h n ≠ .outOfFuel ∧
+      (rwRun matcher templates ridx cond opts scheme authority port fuel target h n).rewrites
+        ≤ n + rwRewritesLeft h := by
+  intro fuel
+  induction fuel with
+  | zero =>
+    intro target h n k hc hb
+    have := rwBudget_pos h hc
+    omega
+  | succ fuel ih =>
+    intro target h n k hc hb
+    have e : fuel + 1 + k = (fuel + k) + 1 := by omega
+    rw [e]
+    simp only [rwRun]
+    generalize hr : rwCall ridx cond
+      { scheme := scheme, authority := authority, port := port, path := target, query := targetQuery target }
+      (templates.zip (matcher target)) h = r
+    obtain ⟨res, h'⟩ := r
+    cases res with
+    | goOn => simp [RwFinal.rewrites]
+    | loopError => simp [RwFinal.rewrites]
+    | invalidResult => simp [RwFinal.rewrites]
+    | pcreError => simp [RwFinal.rewrites]
+    | comeback t' =>
+      simp only
+      cases hp : parseTarget opts false t' with
+      | error e =>
+        simp only [RwFinal.rewrites, ne_eq, reduceCtorEq, not_false_eq_true, true_and]
+        rcases rwCall_comeback hr with ⟨hn, f, _⟩ | ⟨st, f, hs, hl, _, _⟩
+        · subst hn; simp [rwRewritesLeft]
+        · subst hs; simp only [rwRewritesLeft, rwLoopLimit] at *; omega
+      | ok tg =>
+        simp only
+        rcases rwCall_comeback hr with ⟨hn, f, hh⟩ | ⟨st, f, hs, hl, _, hh⟩
+        · subst hn; subst hh
+          have := ih tg.target (some { count := 0, finished := f }) (n + 1) k
+            (by intro st hst; simp only [Option.some.injEq] at hst; subst hst; simp)
+            (by simp only [rwBudget] at hb ⊢; omega)
+          refine ⟨this.1, this.2.1, ?_⟩
+          have h3 := this.2.2
+          simp only [rwRewritesLeft] at h3 ⊢
+          omega
+        · subst hs; subst hh
+          simp only [rwLoopLimit] at hl
+          have := ih tg.target (some { count := st.count + 1, finished := f }) (n + 1) k
+            (by intro st' hst; simp only [Option.some.injEq] at hst; subst hst; simp; omega)
+            (by simp only [rwBudget] at hb ⊢; omega)
+          refine ⟨this.1, this.2.1, ?_⟩
+          have h3 := this.2.2
+          simp only [rwRewritesLeft] at h3 ⊢
+          omega
+
 end LtVerif
